@@ -558,7 +558,10 @@ def rule_dupcol(facts):
 
 def rule_dropschema(facts):
     """DROP SCHEMA without CASCADE must not take the schema's tables with it (CASCADE itself is refused as unsupported). Decided on the
-    catalog's drop_entry: the removal of the schema from the schema map is preceded by a look into the schema's own table map (the look sits on the path where the schema exists)."""
+    catalog's drop_entry: every path to the removal of the schema from the schema map passes an inspection of the schema's own table
+    map - except the paths on which the lookup found no such schema (the None edge of the looked-up Option). In particular IF EXISTS
+    does not open a way around the inspection."""
+    from .mir import disc_switches
     r = RuleResult("C14-DROPSCHEMA", "a schema is removed from the catalog only after its table map has been inspected", floor=1)
     recs = facts.fns_matching(lambda i: "catalog::memory::MemoryCatalog" in i and i.endswith("::drop_entry"))
     if not recs:
@@ -572,14 +575,22 @@ def rule_dropschema(facts):
     if not removes:
         r.missing_anchor("MemoryCatalog::drop_entry: schema map removal not found")
         return r
+    # None edges of switches on the looked-up schema Option
+    none_edges = []
+    for b, place, t in disc_switches(fn):
+        o = fn.origin(["c", [place[0], []]], at=b, through_calls=("::as_ref", "::deref"))
+        if o[0] == "call" and o[1].name.rsplit("::", 1)[-1] in ("map", "get", "peek", "cloned") and ("Option" in o[1].name or "HashIndex" in o[1].name):
+            listed = dict((v, tgt) for v, tgt in t[2])
+            # `match`: None is discriminant 0; `if let Some(..)`: only 1 is listed and None is the otherwise edge
+            none_edges.append((b, listed[0] if 0 in listed else t[3]))
     for rm in removes:
-        # the inspection sits under `if let Some(schema)`: it cannot dominate the removal (absent schema + IF EXISTS), it has to precede it
-        ok = any(rm.bb in fn.reachable_from(l.bb) for l in looks)
+        reach = fn.reach(0, avoid_blocks=[l.bb for l in looks], avoid_edges=none_edges, threaded=False)
+        ok = bool(looks) and rm.bb not in reach
         r.call_sites += 1
-        r.inst({"fn": fn.id, "content_inspections": len(looks), "precedes_removal": ok}, ok)
+        r.inst({"fn": fn.id, "content_inspections": len(looks), "absent_schema_edges": len(none_edges), "removal_only_after_inspection": ok}, ok)
         if not ok:
-            r.violate(fn.id, "schema-dropped-with-contents", "the schema is removed without looking at what it contains: DROP SCHEMA (no CASCADE) silently drops its tables",
-                      rec["file"], rm.line)
+            r.violate(fn.id, "schema-dropped-with-contents", "a path on which the schema exists reaches its removal without looking at what it contains: DROP SCHEMA "
+                      "(no CASCADE) silently drops its tables", rec["file"], rm.line)
     return r
 
 
